@@ -376,3 +376,46 @@ Proof.
   - split; [discriminate | reflexivity].
   - rewrite alookup_aremove_same. split; [reflexivity | reflexivity].
 Qed.
+
+(* ------------------------------------------------------------------------------------------ *)
+(* all handles opened on one bucket name share one store                                        *)
+
+(* an open of a registered name (at its URL) returns a new handle on the instance that serves the name, and
+   changes neither that instance nor any directory: the new handle sees what the others see *)
+Theorem open_registered_shares s mem url name mode i x : rinv s ->
+  alookup String.eqb name (r_buckets s) = Some i -> get_inst s i = Some x ->
+  String.eqb (i_url x) (the_url mem url) = true -> mode <> CreateNew ->
+  let s' := fst (do_open s mem url name mode) in
+  let h := next_id (r_handles s) in
+  snd (do_open s mem url name mode) = RROpened h
+  /\ get_handle s' h = Some (mkHandle name i false)
+  /\ get_inst s' i = Some x /\ r_disk s' = r_disk s.
+Proof.
+  intros Hinv Hn Hx Hu Hm. unfold do_open. rewrite Hn. destruct mode; [|contradiction Hm; reflexivity|].
+  all: rewrite Hx, Hu; cbn [negb]; unfold add_handle, set_count; cbn [fst snd r_handles r_insts r_disk].
+  all: repeat split; try exact Hx.
+  all: unfold get_handle; cbn [r_handles]; apply alookup_app_fresh; apply not_in_fresh; apply (inv_hids s Hinv).
+Qed.
+
+(* two handles on the same instance see the same data, whatever happens to it *)
+Theorem same_instance_same_data s h1 h2 hd1 hd2 :
+  get_handle s h1 = Some hd1 -> get_handle s h2 = Some hd2 -> h_inst hd1 = h_inst hd2 -> data_of s h1 = data_of s h2.
+Proof. intros H1 H2 E. unfold data_of. rewrite H1, H2, E. reflexivity. Qed.
+
+(* a write through one handle is read through every handle on the same instance *)
+Theorem write_shows_through_the_instance s h k v hd x : get_handle s h = Some hd -> h_closed hd = false ->
+  get_inst s (h_inst hd) = Some x -> i_dbopen x = true -> (i_mem x = false -> alookup String.eqb (i_url x) (r_disk s) <> None) ->
+  let s' := fst (do_write s h k v) in
+  snd (do_write s h k v) = RROk
+  /\ forall h' hd', get_handle s h' = Some hd' -> h_inst hd' = h_inst hd ->
+       match data_of s' h' with Some d => alookup String.eqb k d = Some v | None => False end.
+Proof.
+  intros Hh Hc Hx Ho Hd. unfold do_write, status. rewrite Hh, Hc, Hx, Ho. destruct (i_mem x) eqn:Em.
+  - cbn [fst snd]. split; [reflexivity|]. intros h' hd' Hh' Ei.
+    unfold data_of, set_inst, get_handle, get_inst in *; cbn [r_handles r_insts r_disk]. rewrite Hh', Ei.
+    rewrite (alookup_aset_same N.eqb neqb_spec). cbn [i_mem i_data]. apply (alookup_aset_same String.eqb seqb_spec).
+  - destruct (alookup String.eqb (i_url x) (r_disk s)) as [d|] eqn:Ed; [|exfalso; apply (Hd eq_refl); reflexivity].
+    cbn [fst snd]. split; [reflexivity|]. intros h' hd' Hh' Ei.
+    unfold data_of, get_handle, get_inst in *; cbn [r_handles r_insts r_disk]. rewrite Hh', Ei, Hx, Em.
+    rewrite (alookup_aset_same String.eqb seqb_spec). apply (alookup_aset_same String.eqb seqb_spec).
+Qed.
